@@ -489,8 +489,17 @@ func (p *program) assignCheckerParams() error {
 var generatedFileCommentRE = regexp.MustCompile("Code generated .* DO NOT EDIT.")
 
 func (p *program) isGenerated(f *ast.File) bool {
-	return len(f.Comments) != 0 &&
-		generatedFileCommentRE.MatchString(f.Comments[0].Text())
+	// The "Code generated" line may follow other comments
+	// (e.g. a license header), but precedes the package clause.
+	for _, c := range f.Comments {
+		if c.Pos() > f.Package {
+			break
+		}
+		if generatedFileCommentRE.MatchString(c.Text()) {
+			return true
+		}
+	}
+	return false
 }
 
 func (p *program) getFilename(f *ast.File) string {
